@@ -4,6 +4,9 @@ import (
 	"time"
 
 	"go.temporal.io/server/api/adminservice/v1"
+	replicationv1 "go.temporal.io/server/api/replication/v1"
+	"go.temporal.io/server/client/history"
+	"go.temporal.io/server/common/channel"
 )
 
 // ---------------------------------------------------------------------------
@@ -75,4 +78,62 @@ func verifHarness_C03_routing() {
 			verifAssert(s.acks[len(s.acks)-1] == s.lastHigh, "source-eventually-receives-ack-equal-to-its-final-high-watermark")
 		}
 	}
+}
+
+// verifHarness_C03_sendAckStep: one inductive step of the ack aggregator from an ARBITRARY state
+// (any per-target ack map of <=3 targets, any last-sent minimum, any last source high watermark
+// with lastSentMin <= high when high > 0), one arbitrary incoming acknowledgement. Covers
+// histories of any length for the aggregator alone.
+func verifHarness_C03_sendAckStep() {
+	verifConfig("preempt", 0)
+	e := rtNewEnv(1, 1)
+	src := e.newSource(0)
+	nT := verifChoose("known-targets", 4) // 0..3 targets already in the map
+	r := &proxyStreamReceiver{
+		logger: e.logger, shardManager: e.sm, sourceShardID: src.shard,
+		ackChan:     make(chan RoutedAck, 2),
+		ackByTarget: map[history.ClusterShardID]int64{},
+	}
+	lastSent := verifNondetInt64("lastSentMin")
+	high := verifNondetInt64("lastExclusiveHighOriginal")
+	verifAssume(verifAnd(lastSent >= 0, lastSent < 1<<40))
+	verifAssume(verifAnd(high >= 0, high < 1<<40))
+	// representation invariant of the aggregator (established by recvReplicationMessages under
+	// monotone source watermarks): what was sent never exceeded the source's high watermark
+	verifAssume(verifOr(high == 0, lastSent <= high))
+	r.lastSentMin, r.lastExclusiveHighOriginal = lastSent, high
+	for k := 0; k < nT; k++ {
+		v := verifNondetInt64("ackByTarget")
+		verifAssume(verifAnd(v >= 0, v < 1<<40))
+		r.ackByTarget[history.ClusterShardID{ClusterID: rtTargetCluster, ShardID: int32(k + 1)}] = v
+	}
+	from := verifChoose("acking-target", 3)
+	w := verifNondetInt64("incoming")
+	verifAssume(verifAnd(w >= 0, w < 1<<40))
+	sent := int64(-1)
+	nSent := 0
+	src.onAck = func(s *rtSource, a int64) { sent = a; nSent++ }
+	shut := channel.NewShutdownOnce()
+	r.ackChan <- RoutedAck{TargetShard: history.ClusterShardID{ClusterID: rtTargetCluster, ShardID: int32(from + 1)},
+		Req: &adminservice.StreamWorkflowReplicationMessagesRequest{Attributes: &adminservice.StreamWorkflowReplicationMessagesRequest_SyncReplicationState{
+			SyncReplicationState: &replicationv1.SyncReplicationState{InclusiveLowWatermark: w}}}}
+	go func() { _ = r.sendAck(src, shut) }()
+	verifQuiesce()
+	shut.Shutdown()
+	verifQuiesce()
+	verifAssert(nSent <= 1, "step:at-most-one-ack-per-incoming-ack")
+	if nSent == 1 {
+		verifReach("step-ack-sent")
+		verifAssert(sent >= lastSent, "step:ack-not-below-the-previous-one")
+		verifAssert(verifOr(high == 0, sent <= high), "step:ack-not-above-source-high-watermark")
+		verifAssert(r.lastSentMin == sent, "step:last-sent-updated")
+		// what is sent is the minimum over the (updated) map, clamped
+		for _, v := range r.ackByTarget {
+			verifAssert(verifOr(sent <= v, verifAnd(high > 0, sent == high)), "step:ack-is-at-most-every-targets-ack")
+		}
+	} else {
+		verifReach("step-ack-withheld")
+		verifAssert(r.lastSentMin == lastSent, "step:state-unchanged-when-nothing-sent")
+	}
+	verifAssert(verifOr(high == 0, r.lastSentMin <= high), "step:invariant-preserved")
 }
